@@ -65,6 +65,13 @@ func runMutant(repo, prop, patch string, timeout int, lock map[string]*lockEntry
 	for _, e := range out.encErrs {
 		failed = append(failed, "encoder: "+strings.SplitN(e, "\n", 2)[0])
 	}
+	// properties with a bounded stand-in: the harness runs on the mutated sources too
+	if pkg, ok := boundedHarness[prop]; ok && len(failed) == 0 {
+		_, fails := runBoundedOverlay(c, prop, "quick", pkg, filepath.Join(verifRoot(), "work", "selftest-bounded"), ov)
+		for _, f := range fails {
+			failed = append(failed, "bounded:"+f[0])
+		}
+	}
 	sort.Strings(failed)
 	return failed, nil
 }
